@@ -202,7 +202,7 @@ def rand_mgs(rng):
         scale = 1 if is_int else rng.choice([1, 1, F(1, 2), F(1, 4), 2])
         conv = (lambda x: int(x)) if is_int else (lambda x: float(x * scale))
         kw = dict(numbers=[conv(a) for a in nums], total=conv(total), weight_type=int if is_int else float,
-                  max_multiplicity=mult, lowerbound=rng.choice([1, 1, 1, 1, 2, 3, 1, 1, 1, 2, 0]),
+                  max_multiplicity=mult, lowerbound=rng.choice([1, 1, 1, 1, 2, 3, 1, 1, 1, 2, 0, -1]),
                   remove_complement_values=rng.random() < 0.8)
         if parts is not None:
             kw["partition_constraints"] = [[conv(s) for s in c] for c in parts]
